@@ -304,6 +304,20 @@ def _init(propmod_name, variant):
     _worker.start()
 
 
+HARNESS_LPC = ('script.c', 'master.c', 'user.c', 'simul_efun.c', 'spend.c', 'svlib.c', 'uobj.c', 'vobj.c', 'lobj.c')
+
+
+def harness_compile_check(res):
+    """the verification mudlib itself must compile: otherwise every oracle is blind (exit 2, not a verdict)"""
+    if getattr(res, 'exit', None) and res.exit[0] == 'exit' and res.exit[1] == 77:
+        return   # a sanitizer abort is reported as such
+    for e in res.events:
+        if e.kind == 'R' and e.rest.startswith('LOGERR '):
+            w = e.rest.split(' ')
+            if len(w) > 1 and w[1].lstrip('/') in HARNESS_LPC:
+                raise RuntimeError('verification mudlib does not compile: ' + e.rest)
+
+
 def _task(args):
     """one seeded run: generate, execute, check.  Returns a small summary dict."""
     i, seed, tier, mode = args
@@ -311,6 +325,7 @@ def _task(args):
         rng = random.Random(seed)
         plan = _prop.gen(rng, tier, i)
         res = _worker.run(plan)
+        harness_compile_check(res)
         viols = _prop.check(plan, res)
         summ = {'i': i, 'seed': seed, 'hash': res.hash, 'exit': res.exit, 'violations': [v.to_json() for v in viols],
                 'stats': res.stats(), 'nontrivial': False, 'abstract': '', 'probes': {}, 'vus': res.events[-1].vus if res.events else 0,
@@ -586,6 +601,7 @@ def _sweep_base(args):
         rng = random.Random(seed)
         plan = _prop.gen(rng, tier, i)
         res = _worker.run(plan)
+        harness_compile_check(res)
         viols = _prop.check_base(plan, res)
         info = _prop.base_info(plan, res)
         pts = _prop.points(plan, res, tier, random.Random(seed ^ 0x5bd1e995))
